@@ -1,12 +1,12 @@
 (* C15 -- Simulated paths are running sums on the product dates within the time-step cap.
-   Only statements; proofs in Proofs/C15_Paths.v, Proofs/C15_Finer.v, Proofs/C15_Link.v, Proofs/C15_Nd.v.  Models: Model/Paths.v (hand
+   Only statements; proofs in Proofs/C15_Paths.v, Proofs/C15_Finer.v, Proofs/C15_Link.v, Proofs/C15_Nd.v, Proofs/C15_CouplingShape.v, Proofs/C15_NdScript.v.  Models: Model/Paths.v (hand
    models of the path builders of levyprocess.py / markovchain.py / couplingmarkovchain.py and of both copies of build_finer_grid) and
    Model/PathsNd.v (the d-dimensional Levy-copula simulators of markovchainlevycopula.py and couplinglevycopula.py, the real
    jump_times_from_nb_of_jumps), tied to the source by the correspondence through process.simulate_one_path(). *)
 From Coq Require Import ZArith QArith List.
 From RV Require Import Base.QB Model.Paths Model.PathsNd Proofs.C15_Paths Proofs.C15_Finer Proofs.C15_Link Proofs.C15_Nd.
 From RV Require Gen.GenTiePaths Proofs.Tie_Paths.
-From RV Require Import Proofs.C15_GenTie Model.CouplingShapeNd Proofs.C15_CouplingShape.
+From RV Require Import Proofs.C15_GenTie Model.CouplingShapeNd Proofs.C15_CouplingShape Proofs.C15_NdScript.
 Import ListNotations.
 Open Scope Q_scope.
 
@@ -122,9 +122,13 @@ Theorem C15_nd_jump_values : forall d k incs, (k < d)%nat -> wf2 d incs ->
   /\ last path [] = last vals (vzero d).
 Proof. exact nd_jump_values_path. Qed.
 
-(* the whole path of CouplingLevyCopulaSimulation{WithJumpTimes, MaximumStep}.simulate_one_path_with_coupling (any cap, any fuel): fine and
-   coarse live on the SAME returned times and have equally many columns, and each component of each is exactly the 1-d Markov-chain path
-   (Model/Paths.v jump_path) of that component's increments - so C15_jump_times / C15_cap_whole_path / C15_finer_grid apply to it *)
+(* PROJECTION LEMMA (audit5b #9: relabelled) for CouplingLevyCopulaSimulation{WithJumpTimes, MaximumStep}.simulate_one_path_with_coupling (any
+   cap, any fuel): the ONE list of times the model returns is the time list of the 1-d model, fine and coarse have equally many columns, and
+   each component of each is exactly the 1-d Markov-chain value path (Model/Paths.v jump_path) of that component's increments.  Times (tms,
+   offs) and values (fincs, cincs) are SEPARATE, unrelated arguments here, as they are separate arrays in the code: this statement does NOT say
+   that there is one column per returned time, nor that the times are ordered (C15_nd_coupled_path_mismatch below: 5 times, 3 columns meets every
+   hypothesis).  The alignment of values with times and the ordering are C15_nd_coupled_script (times and values read off ONE script) and, for
+   the max-step refinement alone, C15_nd_coupled_cap *)
 Theorem C15_nd_coupled_path : forall d k cap fuel T tms offs fincs cincs, (k < d)%nat -> wf2 d fincs -> wf2 d cincs ->
   length (nd_jump_values d fincs) = length (nd_jump_values d cincs) ->
   let '(t, f, c) := nd_coupled_jump_path d cap fuel T (jump_times_of tms offs) fincs cincs in
@@ -133,7 +137,9 @@ Theorem C15_nd_coupled_path : forall d k cap fuel T tms offs fincs cincs, (k < d
   /\ length f = length c.
 Proof. intros. apply nd_coupled_jump_path_comp; assumption. Qed.
 
-(* MarkovChainLevyCopula.simulate_one_path (jump times, optional cap): component k is the 1-d chain path of component k *)
+(* MarkovChainLevyCopula.simulate_one_path (jump times, optional cap): component k is the 1-d chain path of component k.  Projection lemma as
+   above (times and values are separate arguments); on one script the last conjunct of C15_nd_coupled_script identifies this path with the
+   (times, fine columns) of the coupled path, for which alignment and ordering are proved there *)
 Theorem C15_nd_copula_path : forall d k cap fuel T tms offs incs, (k < d)%nat -> wf2 d incs ->
   let p := nd_jump_path d cap fuel T (jump_times_of tms offs) incs in
   (fst p, map (comp k) (snd p)) = jump_path true cap fuel T tms offs (map (map (comp k)) incs).
@@ -189,8 +195,9 @@ Proof. exact gen_chain_running_sums. Qed.
    Model/CouplingShapeNd.v: for a fine state increment `inc` (one integer per coordinate) the fine value is grid[origin + inc] and the coupling
    state keeps that value on every EVEN coordinate and is a clamped neighbour on its own axis (sign drawn by the uniform: input `sgs`) on every
    ODD one.  For any dimension d = length axes, any number of product intervals and jumps, any sign vectors: the hypotheses of
-   C15_nd_coupled_path (d-vectors, as many coarse as fine values) HOLD, so fine and coarse live on the same times with equally many columns and
-   every component is the 1-d chain path; and on a coordinate where every state increment is even the coarse path IS the fine path *)
+   C15_nd_coupled_path (d-vectors, as many coarse as fine values) HOLD, so fine and coarse have equally many columns and every component is
+   the 1-d chain path; and on a coordinate where every state increment is even the coarse path IS the fine path.  Like C15_nd_coupled_path this
+   is about the values only (tms, offs are unrelated to raws); one column per time + ordering on one script: C15_nd_coupled_script_real *)
 Theorem C15_nd_coupled_path_real : forall axes org k cap fuel T tms offs raws sgs,
   let d := length axes in
   length org = d -> (k < d)%nat -> raws_wf d raws -> signs_for raws sgs ->
@@ -203,6 +210,89 @@ Theorem C15_nd_coupled_path_real : forall axes org k cap fuel T tms offs raws sg
   /\ length f = length c
   /\ ((forall inc, In inc (concat raws) -> Z.even (nth k inc 0%Z) = true) -> map (comp k) c = map (comp k) f).
 Proof. exact nd_coupled_path_real. Qed.
+
+(* ------------------------------------------------------------------ wave 8b (audit5b #9): times and values from ONE script
+   A script (Proofs/C15_NdScript.v) is the list of product intervals (start, length, jumps in time order), each jump = (offset inside the interval,
+   fine increment, coupling state): what the coupled copula simulators consume jump by jump.  Jump times, fine and coarse increments are READ OFF
+   that one list (s_ivs / s_fincs / s_cincs).  For consecutive intervals from 0 with offsets strictly increasing inside (0, dt) (valid_ivs: the
+   hypothesis C15_real_jump_times discharges from the uniforms), d-vectors, any cap 0 < eps (below, equal to or above the maturity) and any
+   fuel: fine and coarse have ONE COLUMN PER RETURNED TIME, the times start at 0, end at the maturity and are STRICTLY INCREASING (inserted
+   points included), without a cap they are exactly 0, the scripted jump times, the maturity; every component is the 1-d chain path on these
+   times; and MarkovChainLevyCopula's path on the fine increments is (these times, the fine columns) *)
+Theorem C15_nd_coupled_script : forall d k cap fuel (s : list siv), (k < d)%nat -> s_wf d s ->
+  valid_ivs 0 (s_ivs s) -> 0 < end_of 0 (s_ivs s) -> match cap with Some eps => 0 < eps | None => True end ->
+  let T := end_of 0 (s_ivs s) in
+  let tms := map iv_tm (s_ivs s) in let offs := map iv_offs (s_ivs s) in
+  let '(t, f, c) := nd_coupled_jump_path d cap fuel T (jump_times_of tms offs) (s_fincs s) (s_cincs s) in
+  length f = length t /\ length c = length t
+  /\ hd 1 t = 0 /\ last t 0 = T /\ strictly_increasing t
+  /\ (cap = None -> t = assemble_times T (times_of_ivs (s_ivs s)) /\ length t = S (S (s_njumps s)))
+  /\ (t, map (comp k) f) = jump_path true cap fuel T tms offs (map (map (comp k)) (s_fincs s))
+  /\ (t, map (comp k) c) = jump_path true cap fuel T tms offs (map (map (comp k)) (s_cincs s))
+  /\ nd_jump_path d cap fuel T (jump_times_of tms offs) (s_fincs s) = (t, f).
+Proof. exact nd_coupled_script. Qed.
+
+(* the same with the hypothesis on the vectors discharged from the shape of the real __coupling_state (Model/CouplingShapeNd.v): the script holds
+   PRIMITIVE inputs only - per jump the offset, the sampled state increment (d integers) and the sign vector __coupling_state drew; fine
+   increments and coupling states are computed from them (s_of_real).  Conclusions as above, and on a coordinate where every state increment is
+   even the coarse component path IS the fine one.  (Indices origin + increment are assumed inside the axes, as in C15_nd_coupled_path_real) *)
+Theorem C15_nd_coupled_script_real : forall axes org k cap fuel (rs : list riv),
+  let d := length axes in
+  length org = d -> (k < d)%nat -> r_wf d rs ->
+  valid_ivs 0 (r_ivs rs) -> 0 < end_of 0 (r_ivs rs) -> match cap with Some eps => 0 < eps | None => True end ->
+  let s := s_of_real axes org rs in
+  let T := end_of 0 (r_ivs rs) in
+  let tms := map iv_tm (r_ivs rs) in let offs := map iv_offs (r_ivs rs) in
+  let '(t, f, c) := nd_coupled_jump_path d cap fuel T (jump_times_of tms offs) (s_fincs s) (s_cincs s) in
+  length f = length t /\ length c = length t
+  /\ hd 1 t = 0 /\ last t 0 = T /\ strictly_increasing t
+  /\ (cap = None -> t = assemble_times T (times_of_ivs (r_ivs rs)) /\ length t = S (S (s_njumps s)))
+  /\ (t, map (comp k) f) = jump_path true cap fuel T tms offs (map (map (comp k)) (s_fincs s))
+  /\ (t, map (comp k) c) = jump_path true cap fuel T tms offs (map (map (comp k)) (s_cincs s))
+  /\ ((forall j : rjump, In j (concat (map (fun x : riv => snd x) rs)) -> Z.even (nth k (fst (snd j)) 0%Z) = true) -> map (comp k) c = map (comp k) f).
+Proof. exact nd_coupled_script_real. Qed.
+
+(* why the script is needed: the auditor's instance meets every hypothesis of C15_nd_coupled_path and returns 5 times with 3 fine and 3 coarse
+   columns; decreasing / duplicate times are accepted there as well *)
+Example C15_nd_coupled_path_mismatch :
+  wf2 2 [[[1; 2]]] /\ wf2 2 [[[3; 4]]] /\ length (nd_jump_values 2 [[[1; 2]]]) = length (nd_jump_values 2 [[[3; 4]]])
+  /\ (let '(t, f, c) := nd_coupled_jump_path 2 None 0 1 (jump_times_of [0] [[1#4; 1#2; 3#4]]) [[[1; 2]]] [[[3; 4]]] in
+      (length t, length f, length c)) = (5, 3, 3)%nat
+  /\ (let '(t, f, c) := nd_coupled_jump_path 2 None 0 1 (jump_times_of [0] [[3#4; 1#4; 1#4]]) [[[1; 2]]; [[1; 1]; [0; 1]]] [[[3; 4]]; [[0; 0]; [1; 1]]] in
+      map Qred t) = [0; 3#4; 1#4; 1#4; 1].
+Proof. split; [repeat constructor|]. split; [repeat constructor|]. repeat split. Qed.
+
+(* non-vacuity of C15_nd_coupled_script on what the model's OWN builders produce: d = 2, two product intervals [0,1], [1,2] whose offsets are
+   offsets_of_uniforms (the real jump_times_from_nb_of_jumps) of the uniforms [3/4; 1/4] and [1/2], cap 1/2: every hypothesis holds and the path
+   has 6 times (the point 5/4 is inserted and repeats the columns of 3/4), 6 fine and 6 coarse columns *)
+Example C15_nd_script_nonvacuous :
+  let s : list siv := [(0, 1, [(1#4, ([1; 2], [0; 1])); (3#4, ([2; 4], [1; 1]))]); (1, 1, [(1#2, ([4; 8], [2; 0]))])] in
+  s_wf 2 s /\ valid_ivs 0 (s_ivs s) /\ 0 < end_of 0 (s_ivs s)
+  /\ map (map Qred) (map iv_offs (s_ivs s)) = map (map Qred) [offsets_of_uniforms 1 [3#4; 1#4]; offsets_of_uniforms 1 [1#2]]
+  /\ (let '(t, f, c) := nd_coupled_jump_path 2 (Some (1#2)) 8 (end_of 0 (s_ivs s)) (jump_times_of (map iv_tm (s_ivs s)) (map iv_offs (s_ivs s))) (s_fincs s) (s_cincs s) in
+      (map Qred t, map (map Qred) f, map (map Qred) c))
+     = ([0; 1#4; 3#4; 5#4; 3#2; 2], [[0; 0]; [1; 2]; [3; 6]; [3; 6]; [7; 14]; [7; 14]], [[0; 0]; [0; 1]; [1; 2]; [1; 2]; [3; 2]; [3; 2]]).
+Proof.
+  cbv zeta. split; [repeat constructor|]. split; [|split; [vm_compute; reflexivity|split; vm_compute; reflexivity]].
+  cbn. repeat split; try (vm_compute; reflexivity); repeat constructor; vm_compute; reflexivity.
+Qed.
+
+(* non-vacuity of C15_nd_coupled_script_real: the instance of C15_coupling_shape_nonvacuous below written as ONE primitive script (d = 3, two
+   product intervals with 2 + 1 jumps at offsets 1/4, 1/2 and 1/4): every hypothesis holds, coordinate 1 has even increments only, and the
+   fine / coarse increments computed from the script are those of that example *)
+Example C15_nd_script_real_nonvacuous :
+  let axis := [-1; -(1#2); 0; 1#2; 1] in let axes := [axis; axis; axis] in let org := [2; 2; 2]%Z in
+  let rs : list riv := [(0, 1, [(1#4, ([1; 2; -1]%Z, [true; true; false])); (1#2, ([-1; 0; 2]%Z, [false; false; true]))]);
+                        (1, 1, [(1#4, ([1; -2; 1]%Z, [true; true; true]))])] in
+  r_wf 3 rs /\ valid_ivs 0 (r_ivs rs) /\ 0 < end_of 0 (r_ivs rs)
+  /\ (forall j : rjump, In j (concat (map (fun x : riv => snd x) rs)) -> Z.even (nth 1 (fst (snd j)) 0%Z) = true)
+  /\ s_fincs (s_of_real axes org rs) = [[[1#2; 1; -(1#2)]; [-(1#2); 0; 1]]; [[1#2; -1; 1#2]]]
+  /\ s_cincs (s_of_real axes org rs) = [[[1; 1; -1]; [-1; 0; 1]]; [[1; -1; 1]]]
+  /\ s_njumps (s_of_real axes org rs) = 3%nat.
+Proof.
+  cbv zeta. split; [repeat constructor|]. split; [cbn; repeat split; try (vm_compute; reflexivity); repeat constructor; vm_compute; reflexivity|].
+  split; [vm_compute; reflexivity|]. split; [intros j [<-|[<-|[<-|[]]]]; reflexivity|]. repeat split; vm_compute; reflexivity.
+Qed.
 
 (* non-vacuity: d = 3, axes of 5 points with the origin in the middle, two product intervals with 2 + 1 jumps; coordinate 1 has even increments
    only (coarse = fine there), coordinates 0 and 2 move to neighbours; each coupling state is among the outcomes the correspondence accepts *)
@@ -269,6 +359,11 @@ Print Assumptions C15_real_jump_times.
 Print Assumptions C15_gen_chain_over_intervals_is_model.
 Print Assumptions C15_gen_chain_running_sums.
 Print Assumptions C15_nd_coupled_path_real.
+Print Assumptions C15_nd_coupled_script.
+Print Assumptions C15_nd_coupled_script_real.
+Print Assumptions C15_nd_coupled_path_mismatch.
+Print Assumptions C15_nd_script_nonvacuous.
+Print Assumptions C15_nd_script_real_nonvacuous.
 Print Assumptions C15_coupling_shape_nonvacuous.
 Print Assumptions C15_nonvacuous.
 Print Assumptions C15_nd_nonvacuous.
